@@ -7,6 +7,11 @@ CLAIMS = {
         "text": "Proof: Lean theorems parse_int_{signed,unsigned}_exact (all widths 1..128: result = exact value of the notation if it fits, error otherwise), never_wrapped_*, complete_*, bool/null tables exact, b64_decode_encode and b64_strict, for ALL strings; the model is tied to the code by a ~0.5M-case differential (all short strings over the digit/prefix alphabet, width boundaries in every radix, whitespace/sign/separator variants) and literal tables regenerated from the source.",
         "note": "Trusted: Lean kernel; axioms propext/Classical.choice/Quot.sound; the hand model's correspondence is tested not proved; float text->value is core::str::parse (external, not modelled).",
     },
+    "C07": {
+        "technique": "Lean 4 theorems (enforcer accepts iff independent counts within limits; report = counts; per-document independence) + differential of the enforcer and of the pump's budget integration against budget.rs/live_events.rs",
+        "text": "Proof: accepts_iff, report_eq_usage (incl. merge keys tracked by the container-state stack vs counted on the tree), ratio_exact, exact_limits_accept / below_usage_rejects (limit = usage accepts, anything below rejects), first_breach_kind (arbitrary event lists), perdoc_independent and perdoc_state_reset for the repaired per-document policy, for ALL streams of document trees; tied to the code by a differential over real parser event streams (limit = usage and usage-1 for each of 8 counters, ratio heuristic incl. saturating multipliers, both policies, synthetic unbalanced sequences) and by the pump differential in which replayed events are budgeted; Budget::default constants regenerated from source.",
+        "note": "Trusted: Lean kernel; axioms propext/Classical.choice/Quot.sound; hand model tied by testing; parser contract (events = flattened trees) assumed for the tree theorems; three defects found by this property were repaired by fix: commits (see known_findings.json).",
+    },
 }
 
 _PENDING = "model and theorems not built yet in this round (planned, see DESIGN.md section 5); not claimed until its check exists"
